@@ -96,6 +96,28 @@ func genC11(g *gen) {
 			}
 		}
 		g.emit("footer %s %s", hx(cov), hx(tr[:g.r.Intn(8)]))
+		// long covered ranges read in requests of very different sizes (one byte, a length prefix, a 4 KiB … 70 KB body), as the
+		// parser does for long strings: every byte goes into the CRC once, in order, whatever the request pattern
+		for k := 0; k < 3; k++ {
+			var req []string
+			tot := 0
+			for len(req) < 3+g.r.Intn(5) {
+				n := []int{1, 2, 5, 9, 4095, 4096, 4097, 8192, 20000, 70000, 1 + g.r.Intn(300)}[g.r.Intn(11)]
+				if tot+n > 90000 {
+					n = 3
+				}
+				req = append(req, fmt.Sprint(n))
+				tot += n
+			}
+			big := g.bytes(tot)
+			bs := digest.New()
+			bs.Write(big)
+			dl := "x"
+			if g.r.Intn(2) == 0 {
+				dl = "x/" + deliveryModes[g.r.Intn(len(deliveryModes))] + fmt.Sprint(g.r.Intn(1000))
+			}
+			g.emit("footer %s %s %s@%s", hx(big), hx(bs.Sum(nil)), dl, strings.Join(req, "+"))
+		}
 		// the same intact / damaged stream reaching the loader in pieces (short reads, byte by byte, data together with EOF,
 		// interleaved empty reads): the running CRC must cover every byte exactly once, however it was delivered
 		for k := 0; k < 6; k++ {
@@ -204,11 +226,20 @@ func runC11(f []string) string {
 	case "footer":
 		cov, tr := unhx(f[1]), unhx(f[2])
 		var src io.Reader = bytes.NewReader(append(append([]byte{}, cov...), tr...))
+		parts := []int{len(cov)}
 		if len(f) > 3 {
-			src = newDelivery(append(append([]byte{}, cov...), tr...), f[3])
+			// <delivery flag>[@<n1>+<n2>+…]: how the source hands the bytes out, and in which requests the loader asks for them
+			fl := strings.SplitN(f[3], "@", 2)
+			src = newDelivery(append(append([]byte{}, cov...), tr...), fl[0])
+			if len(fl) == 2 {
+				parts = nil
+				for _, t := range strings.Split(fl[1], "+") {
+					parts = append(parts, atoi(t))
+				}
+			}
 		}
 		l := rdb.NewLoader(src)
-		if err := l.VerifSkip(len(cov)); err != nil {
+		if err := l.VerifSkipParts(parts); err != nil {
 			return "skiperr"
 		}
 		if err := l.Footer(); err != nil {
